@@ -105,7 +105,7 @@ mut("rank-is-table-size", ["C09"], "code_data/_blocks.py",
 mut("params-not-preseeded", ["C09"], "code_data/_blocks.py",
     "found_varnames = ToArgs(varnames, {i: i for i in range(len(args.parameters))})",
     "found_varnames = ToArgs(varnames)")
-mut("additional-args-all", ["C09", "C01"], "code_data/_blocks.py",
+mut("additional-args-all", ["C09"], "code_data/_blocks.py",
     "            if i not in self._index_to_order:\n                yield self.found_index(i)",
     "            if i not in self._index_to_order or i == 0:\n                yield self.found_index(i)")
 mut("override-second-use-only", ["C09"], "code_data/_blocks.py",
